@@ -71,12 +71,16 @@ pub struct Params {
     pub clone_drop: bool,
     /// C13: a blocked flock is interrupted by a signal after this many waits (0 = never)
     pub eintr_after: u32,
+    /// the reader-writer lock queues new readers behind a waiting writer (the policy of the
+    /// futex lock std uses on Linux) instead of letting them in (shuttle's own policy)
+    pub wpref: bool,
 }
 
 impl Params {
     pub fn draw(prop: &str, seed: u64) -> Params {
         let mut r = Rng::new(mix(seed, 0x5C3));
-        match prop {
+        let wpref = Rng::new(mix(seed, 0x5C5)).chance(1, 2);
+        let mut p = match prop {
             "C04" => Params {
                 keys: r.range(4, 14) as u32,
                 // beyond the stated bound (two readers, four commits) in one run out of six
@@ -92,6 +96,7 @@ impl Params {
                 hold: false,
                 clone_drop: false,
                 eintr_after: 0,
+                wpref: false,
             },
             "C10" => Params {
                 keys: r.range(6, 14) as u32,
@@ -106,6 +111,7 @@ impl Params {
                 hold: false,
                 clone_drop: false,
                 eintr_after: 0,
+                wpref: false,
             },
             "C09" => Params {
                 keys: 3,
@@ -120,6 +126,7 @@ impl Params {
                 hold: r.chance(1, 4),
                 clone_drop: false,
                 eintr_after: 0,
+                wpref: false,
             },
             _ => Params {
                 keys: 2,
@@ -134,13 +141,16 @@ impl Params {
                 hold: r.chance(1, 2),
                 clone_drop: r.chance(1, 2),
                 eintr_after: if r.chance(1, 4) { r.range(1, 6) as u32 } else { 0 },
+                wpref: false,
             },
-        }
+        };
+        p.wpref = wpref;
+        p
     }
     pub fn to_json(&self) -> Value {
         json!({"keys": self.keys, "commits": self.commits, "readers": self.readers, "writers": self.writers, "rounds": self.rounds,
             "rereads": self.rereads, "grow": self.grow, "openers": self.openers, "preexisting": self.preexisting, "hold": self.hold,
-            "clone_drop": self.clone_drop, "eintr_after": self.eintr_after})
+            "clone_drop": self.clone_drop, "eintr_after": self.eintr_after, "wpref": self.wpref})
     }
     pub fn from_json(v: &Value) -> Option<Params> {
         let u = |k: &str| v.get(k).and_then(|x| x.as_u64()).map(|x| x as u32);
@@ -158,6 +168,7 @@ impl Params {
             hold: b("hold")?,
             clone_drop: b("clone_drop").unwrap_or(false),
             eintr_after: u("eintr_after").unwrap_or(0),
+            wpref: b("wpref").unwrap_or(false),
         })
     }
 }
@@ -773,6 +784,7 @@ fn run(case: &Case, dir: &str) -> Verdict {
     let prop = case.property.clone();
     let p = case.extra.get("params").and_then(Params::from_json).unwrap_or_else(|| Params::draw(&prop, case.seed));
     let path = format!("{}/db", dir);
+    jsim_shim::set_writer_preference(p.wpref);
     *VIOL.lock().unwrap_or_else(|e| e.into_inner()) = None;
     PROBES.lock().unwrap_or_else(|e| e.into_inner()).clear();
     if prop != "C13" || p.preexisting {
